@@ -140,3 +140,26 @@ PROPS['C19'] = dict(
     assumptions=[],
     explanation="",
 )
+
+from contracts import cli
+PROPS['C10'] = dict(
+    units=list(cli.UNITS_C10),
+    level='proof',
+    min_obligations=50,
+    assumptions=[],
+    explanation="",
+)
+
+from contracts import cliharness as _ch
+PROPS['C09'] = dict(units=list(cli.UNITS_C09) + [cli.PlidMode, cli.SrcMode, cli.IdMode, cli.BmcIdMode, cli.PrintFile, _ch.H09],
+                    level='other', min_obligations=50, assumptions=[], explanation="")
+PROPS['C08'] = dict(units=list(cli.UNITS_C08) + [cli.AllPels, cli.ListOption, cli.Count, _ch.H08],
+                    level='other', min_obligations=50, assumptions=[], explanation="")
+PROPS['C11'] = dict(units=list(cli.UNITS_C11) + [cli.WriteOutput, cli.AllPels, cli.ListOption, cli.Count, cli.PlidMode, cli.SrcMode,
+                                                  cli.IdMode, cli.BmcIdMode, cli.PrintFile, _ch.H11],
+                    level='other', min_obligations=50, assumptions=[], explanation="")
+PROPS['C12'] = dict(units=list(cli.UNITS_C12) + [cli.Main, cli.PrintFile, _ch.H12],
+                    level='other', min_obligations=20, assumptions=[], explanation="")
+PROPS['C10']['units'] = PROPS['C10']['units'] + [_ch.H10]
+PROPS['C05']['units'] = PROPS['C05']['units'] + list(cli.UNITS_C05) + [cli.Main, _ch.H05]
+PROPS['C06']['units'] = [cli.AllPels, cli.ListOption, cli.Count]
